@@ -525,7 +525,16 @@ pub fn args_for(sig: &Sig, flavour: Flavour, count: Num) -> Option<(String, Env)
             }
             parts.push(format!("<{c}> = comp_{c}"));
         } else {
-            parts.push(format!("<{c}> = {}", rust_str(c)));
+            // every way a component can be given to the string back-ends (same rendering: `<c>..</c>`)
+            let form = match flavour {
+                Flavour::TdDisplay | Flavour::TuString => format!("leptos_i18n::display::DisplayComp::new({}, &[])", rust_str(c)),
+                Flavour::TString => format!("{}.to_string()", rust_str(c)),
+                Flavour::TDisplay => format!(
+                    "|f: &mut std::fmt::Formatter<'_>, ch: &dyn Fn(&mut std::fmt::Formatter<'_>) -> std::fmt::Result| {{ write!(f, \"<{c}>\")?; ch(f)?; write!(f, \"</{c}>\") }}"
+                ),
+                _ => rust_str(c),
+            };
+            parts.push(format!("<{c}> = {form}"));
         }
     }
     let tail = if parts.is_empty() { String::new() } else { format!(", {}", parts.join(", ")) };
